@@ -135,6 +135,9 @@ package eval
 //@   witness post:0.0#0 "c = true\nx = c ? 1 : nil\ny = c ? \"a\" : nil\nif x.nil?\n  if y.nil?\n    dbtp y\n  end\n  dbtp x\nelse\n  dbtp x\nend\n" expect "in.rb:::10:::NilClass"
 
 //@ func (*ti/eval.IfUnless).evaluate
+//@   # C10: the restore closures of the condition look-ahead run when the conditional ends, the first one
+//@   # made last (a later backup of the same variable was taken after an earlier test had narrowed it)
+//@   deferredonly[C10] zaoriks
 //@   requires wfP(p)
 //@   eosexit
 //@   inline 8 2
